@@ -1,5 +1,5 @@
 (* C19 — lockset discipline implies race freedom (for all programs, all valid traces). *)
-From Coq Require Import List String Bool Arith Lia.
+From Coq Require Import String List Bool Arith Lia.
 Import ListNotations.
 From GY Require Import Model.Conc.
 
@@ -132,7 +132,7 @@ Proof. intros A l. induction l as [|a r IH]; intros [|n] x; simpl; intro Hlt; tr
 Lemma nth_upd_other : forall A (l : list A) n x n', n' <> n -> nth_error (upd l n x) n' = nth_error l n'.
 Proof.
   intros A l. induction l as [|a r IH]; intros [|n] x [|n'] Hne; simpl; auto; try congruence.
-  apply IH. congruence.
+  all: try (apply IH; congruence).
 Qed.
 
 Lemma nth_lt : forall A (l : list A) n x, nth_error l n = Some x -> n < length l.
@@ -165,7 +165,7 @@ Proof. intros. unfold setn. now rewrite String.eqb_refl. Qed.
 Lemma setn_other : forall f m v m', m' <> m -> setn f m v m' = f m'.
 Proof. intros f m v m' Hne. unfold setn. apply String.eqb_neq in Hne. now rewrite Hne. Qed.
 
-Lemma hold_neq_m : forall (m m' : mutex) d d', m' <> m -> (m', d') <> (m, d).
+Lemma hold_neq_m : forall (m m' : mutex) (d d' : lmode), m' <> m -> (m', d') <> (m, d).
 Proof. intros. congruence. Qed.
 
 (* one step of thread t preserves the invariant *)
@@ -187,39 +187,39 @@ Proof.
     + (* Acq *) destruct Hcan as [Hx Hr].
       destruct (string_dec m' m) as [->|Hne].
       * rewrite hold_eqb_refl in CX. rewrite hold_eqb_neq in CR by discriminate.
-        rewrite setb_same. rewrite Hx in IX. repeat split; try lia. intros _. exact Hr.
+        rewrite setb_same. rewrite Hx in IX. repeat split; try lia.
       * rewrite hold_eqb_neq in CX by (apply hold_neq_m; exact Hne).
         rewrite hold_eqb_neq in CR by (apply hold_neq_m; exact Hne).
-        rewrite setb_other by exact Hne. repeat split; try lia. exact IE.
+        rewrite setb_other by exact Hne. repeat split; try lia. all: try exact IE.
     + (* RAcq *)
       destruct (string_dec m' m) as [->|Hne].
       * rewrite hold_eqb_refl in CR. rewrite hold_eqb_neq in CX by discriminate.
-        rewrite setn_same. repeat split; try lia. intro Hx. rewrite Hx in Hcan. discriminate.
+        rewrite setn_same. repeat split; try lia. all: try (intro Hx; rewrite Hx in Hcan; discriminate).
       * rewrite hold_eqb_neq in CX by (apply hold_neq_m; exact Hne).
         rewrite hold_eqb_neq in CR by (apply hold_neq_m; exact Hne).
-        rewrite setn_other by exact Hne. repeat split; try lia. exact IE.
+        rewrite setn_other by exact Hne. repeat split; try lia. all: try exact IE.
     + (* Rel *)
       apply wf_rel in Hwf.
       destruct (string_dec m' m) as [->|Hne].
       * pose proof (count_remove1_same (m, MX) (H t) (proj1 (count_In _ _) Hwf)) as E1.
         rewrite count_remove1_other in CR by discriminate.
         rewrite setb_same. rewrite Hcan in IX.
-        repeat split; try lia. intro; discriminate.
+        repeat split; try lia. all: try (intro; discriminate).
       * rewrite count_remove1_other in CX by (apply hold_neq_m; exact Hne).
         rewrite count_remove1_other in CR by (apply hold_neq_m; exact Hne).
-        rewrite setb_other by exact Hne. repeat split; try lia. exact IE.
+        rewrite setb_other by exact Hne. repeat split; try lia. all: try exact IE.
     + (* RRel *)
       apply wf_rrel in Hwf.
       destruct (string_dec m' m) as [->|Hne].
       * pose proof (count_remove1_same (m, MR) (H t) (proj1 (count_In _ _) Hwf)) as E1.
         rewrite count_remove1_other in CX by discriminate.
         rewrite setn_same.
-        repeat split; try lia. intro Hx. specialize (IE Hx). contradiction.
+        repeat split; try lia. all: try (intro Hx; specialize (IE Hx); contradiction).
       * rewrite count_remove1_other in CX by (apply hold_neq_m; exact Hne).
         rewrite count_remove1_other in CR by (apply hold_neq_m; exact Hne).
-        rewrite setn_other by exact Hne. repeat split; try lia. exact IE.
-    + repeat split; try lia. exact IE.
-    + repeat split; try lia. exact IE.
+        rewrite setn_other by exact Hne. repeat split; try lia. all: try exact IE.
+    + repeat split; try lia. all: try exact IE.
+    + repeat split; try lia. all: try exact IE.
   - intros t' p Hn.
     destruct (Nat.eq_dec t' t) as [->|Hne].
     + rewrite nth_upd_same in Hn by exact Hlt. inversion Hn; subst p.
@@ -246,12 +246,12 @@ Proof.
 Qed.
 
 (* ------------------------------------------------------------------ state along a trace *)
-Fixpoint heldat (H : nat -> held) (tr : trace) (k : nat) : nat -> held :=
+Fixpoint heldat (H : nat -> held) (tr : trace) (k : nat) {struct k} : nat -> held :=
   match k, tr with
   | S k', (t, e) :: tr' => heldat (hupd H t (scan_ev (H t) e)) tr' k'
   | _, _ => H
   end.
-Fixpoint stateat (s : lstate) (tr : trace) (k : nat) : lstate :=
+Fixpoint stateat (s : lstate) (tr : trace) (k : nat) {struct k} : lstate :=
   match k, tr with
   | S k', (t, e) :: tr' => stateat (do_step s e) tr' k'
   | _, _ => s
@@ -300,7 +300,7 @@ Proof.
   - destruct l; discriminate.
   - destruct l as [|l]; simpl in *.
     + inversion Hl; subst. eapply nth_lt. exact Hnth.
-    + rewrite <- (upd_length _ ps t0 rest). eapply IH. exact Hl.
+    + pose proof (IH _ _ _ Hl) as Q. rewrite upd_length in Q. exact Q.
 Qed.
 
 Lemma accs_step : forall a h e rest, In a (accs (scan_ev h e) rest) -> In a (accs h (e :: rest)).
@@ -356,7 +356,7 @@ Proof.
   - simpl in Hok. apply andb_true_iff in Hok. destruct Hok as [Ha Hr].
     destruct j as [|j]; [lia|]. simpl in Hj. destruct i as [|i]; simpl in Hi.
     + inversion Hi; subst a. rewrite forallb_forall in Ha. apply Ha. eapply nth_error_In. exact Hj.
-    + eapply IH; eauto. lia.
+    + apply (IH i j p q Hr); [lia | exact Hi | exact Hj].
 Qed.
 
 Lemma lockset_common_lock : forall ps t1 t2 p1 p2 x w1 h1 w2 h2,
@@ -498,6 +498,7 @@ Qed.
 (* ------------------------------------------------------------------ T3: guarded memo caches *)
 Section MemoProofs.
   Variables (K V : Type) (keq : K -> K -> bool) (f : K -> V).
+  Hypothesis keq_eq : forall a b, keq a b = true -> a = b.
 
   Lemma memo_op_sound : forall c k, cache_sound K V keq f c ->
     fst (memo_op K V keq f c k) = f k /\ cache_sound K V keq f (snd (memo_op K V keq f c k)).
@@ -505,6 +506,18 @@ Section MemoProofs.
     intros c k Hs. unfold memo_op. destruct (assoc K V keq k c) as [v|] eqn:E; simpl.
     - split; [apply Hs; exact E | exact Hs].
     - split; [reflexivity|]. intros k' v'. simpl. destruct (keq k' k) eqn:Ek.
-      + (* the stored value is f k; keq may identify k' with k only if the cache says so *)
-        intro Q. inversion Q; subst v'. Abort.
+      + intro Q. inversion Q; subst v'. apply keq_eq in Ek. now subst.
+      + apply Hs.
+  Qed.
+
+  (* whatever the order in which the lock serialises the callers, each obtains f k *)
+  Lemma memo_run_spec : forall ks c, cache_sound K V keq f c -> memo_run K V keq f c ks = map f ks.
+  Proof.
+    induction ks as [|k r IH]; intros c Hs; simpl; [reflexivity|].
+    destruct (memo_op_sound c k Hs) as [A B].
+    destruct (memo_op K V keq f c k) as [v c'] eqn:E. simpl in A, B. subst v. f_equal. apply IH. exact B.
+  Qed.
+
+  Lemma cache_sound_nil : cache_sound K V keq f [].
+  Proof. intros k v Q. discriminate. Qed.
 End MemoProofs.
